@@ -15,7 +15,13 @@ theorem pointer_roundtrip (offset length : Nat) (isNull : Bool) (ho : offset < 2
   Small.pointer_roundtrip offset length isNull ho hl
 
 /-- T1: the functions this property's mirror model follows have today the source text the model was written against. -/
-theorem tie : Tie.sameAll ["strings.nullBit", "strings.NewPointer", "strings.Pointer.Offset", "strings.Pointer.Len", "strings.Pointer.IsNull", "strings.CheckName", "strings.isQuoted", "qframe.New", "qframe.createColumn", "qframe.Slice", "qframe.Select", "qframe.QFrame.Drop", "qframe.QFrame.Copy", "scolumn.New", "scolumn.NewConst", "icolumn.NewConst"] = true := by decide
+-- Tie audit (bin/selftest-ties): the following functions are not compared as text any more; every behaviour-changing edit of
+-- them makes a `gen_*_canon` theorem of this property's modules fail, renaming their locals or reformatting them changes nothing:
+-- `CheckName`, `isQuoted`: `Gen.checkNameAst`, `C08Guards.gen_checkname_canon` + `gen_checkname_semantics`. `New`: `Gen.guardAst` + `Gen.newTailAst`, `C08Guards.gen_guards_canon` +
+-- `gen_new_outcome`, `C08Construct.gen_construct_canon` + `gen_new_semantics_partial`. `QFrame.Slice`, `Select`, `Drop`, `Copy`: `Gen.guardAst` + `Gen.projectAst`,
+-- `C08Guards.gen_guards_canon` + `gen_guards_semantics`, `C08ProjectGen.gen_project_canon` + `gen_project_semantics`.
+-- The string pointer functions are regenerated in `Gen.stringsFns` (C08PointerGen.gen_pointer_semantics / gen_pointer_roundtrip).
+theorem tie : Tie.sameAll ["qframe.createColumn", "scolumn.New", "scolumn.NewConst", "icolumn.NewConst"] = true := by decide
 
 /-- The null marker of packed string pointers is bit 63. -/
 theorem gen_null_bit : Gen.consts.lookup "strings.nullBit" = some "0x8000000000000000" := by decide
